@@ -456,7 +456,7 @@ func genApi(r *lib.Rand, depth int) ApiIn {
 				if r.Chance(70) {
 					i = top + 1
 				} else {
-					i = top + r.Range(2, 4) // leaves Go-nil holes: outside the list specification, exact in the impl model
+					i = top + r.Range(2, 4) // above the top: the gap is filled with nil
 				}
 			}
 			in.Ops = append(in.Ops, AOp{K: "insert", I: i, V: nv()})
